@@ -40,27 +40,31 @@ type scenario struct {
 	ShardsQuick  int  `json:"-"`
 	ShardsThor   int  `json:"-"`
 	Thorough     bool `json:"thorough_only,omitempty"`
+	// CostQuick / CostThor: scheduling steps (thousands) the scenario took in a measured run of the tier (REPORT.md section 10).
+	// Only used to spread the units evenly over the worker processes; a wrong number costs wall time, nothing else.
+	CostQuick int `json:"-"`
+	CostThor  int `json:"-"`
 }
 
 var scenarios = []scenario{
-	{Name: "insert||confirms", Prefix: []string{"ins a1"}, Threads: [][]string{{"ins a2"}, {"cf a1 1"}}, BoundQuick: 2, BoundThor: 3, ShardsQuick: 4, ShardsThor: 8},
-	{Name: "siblings", Prefix: []string{"ins a1"}, Threads: [][]string{{"ins a2"}, {"ins a2x"}}, BoundQuick: 2, BoundThor: 3, ShardsQuick: 1, ShardsThor: 3},
-	{Name: "mine||insert", Prefix: []string{"pool", "ins a1"}, Threads: [][]string{{"mine"}, {"ins a2m"}}, BoundQuick: 2, BoundThor: 4, ShardsQuick: 1, ShardsThor: 2},
-	{Name: "confirms||stable,current", Prefix: []string{"ins a1"}, Threads: [][]string{{"cf a1 1"}, {"stable", "current"}}, BoundQuick: 2, BoundThor: 4, ShardsQuick: 1, ShardsThor: 2},
-	{Name: "confirms||getconfirms", Prefix: []string{"ins a1"}, Threads: [][]string{{"cf a1 1"}, {"confirms a1"}}, BoundQuick: 2, BoundThor: 4, ShardsQuick: 1, ShardsThor: 1},
-	{Name: "confirms||top,account", Prefix: []string{"ins a1"}, Threads: [][]string{{"cf a1 1"}, {"top a1", "acct"}}, BoundQuick: 2, BoundThor: 4, ShardsQuick: 1, ShardsThor: 2},
-	{Name: "batch-task||tryconfirm", Prefix: []string{"ins a1", "ins b1", "ins b2", "cf b2 0,1"}, Threads: [][]string{{"ins b3"}}, LastPrefixBG: true, BoundQuick: 2, BoundThor: 3, ShardsQuick: 4, ShardsThor: 8},
-	{Name: "confirms||confirms", Prefix: []string{"ins a1"}, Threads: [][]string{{"cf a1 1"}, {"cf a1 2"}}, BoundQuick: 2, BoundThor: 4, ShardsQuick: 2, ShardsThor: 2},
-	{Name: "insert||confirms-of-it", Prefix: []string{"ins a1"}, Threads: [][]string{{"ins a2"}, {"cf a2 0,2"}}, BoundQuick: 2, BoundThor: 3, ShardsQuick: 3, ShardsThor: 6},
-	{Name: "mine||confirms", Prefix: []string{"pool", "ins a1"}, Threads: [][]string{{"mine"}, {"cf a1 1"}}, BoundQuick: 2, BoundThor: 4, ShardsQuick: 2, ShardsThor: 2},
-	{Name: "confirms||top30", Prefix: []string{"ins a1"}, Threads: [][]string{{"cf a1 1"}, {"top30"}}, BoundQuick: 2, BoundThor: 3, ShardsQuick: 2, ShardsThor: 3},
-	{Name: "confirms||blockat", Prefix: []string{"ins a1"}, Threads: [][]string{{"cf a1 1"}, {"blockat 1"}}, BoundQuick: 2, BoundThor: 3, ShardsQuick: 2, ShardsThor: 3},
-	{Name: "confirms||confirms-same-signer", Prefix: []string{"ins a1", "ins b1"}, Threads: [][]string{{"cf b1 0"}, {"cf b1 f0"}}, BoundQuick: 2, BoundThor: 4, ShardsQuick: 1, ShardsThor: 1},
-	{Name: "batch-task||confirms-for-stable-ancestor", Prefix: []string{"ins a1", "ins b1", "ins b2", "cf b2 0,1"}, Threads: [][]string{{"cf b1 0"}}, LastPrefixBG: true, BoundQuick: 2, BoundThor: 4, ShardsQuick: 2, ShardsThor: 2},
+	{Name: "insert||confirms", Prefix: []string{"ins a1"}, Threads: [][]string{{"ins a2"}, {"cf a1 1"}}, BoundQuick: 2, BoundThor: 3, ShardsQuick: 4, ShardsThor: 8, CostQuick: 756, CostThor: 2413},
+	{Name: "siblings", Prefix: []string{"ins a1"}, Threads: [][]string{{"ins a2"}, {"ins a2x"}}, BoundQuick: 2, BoundThor: 3, ShardsQuick: 1, ShardsThor: 3, CostQuick: 184, CostThor: 774},
+	{Name: "mine||insert", Prefix: []string{"pool", "ins a1"}, Threads: [][]string{{"mine"}, {"ins a2m"}}, BoundQuick: 2, BoundThor: 4, ShardsQuick: 1, ShardsThor: 2, CostQuick: 34, CostThor: 113},
+	{Name: "confirms||stable,current", Prefix: []string{"ins a1"}, Threads: [][]string{{"cf a1 1"}, {"stable", "current"}}, BoundQuick: 2, BoundThor: 4, ShardsQuick: 1, ShardsThor: 2, CostQuick: 52, CostThor: 182},
+	{Name: "confirms||getconfirms", Prefix: []string{"ins a1"}, Threads: [][]string{{"cf a1 1"}, {"confirms a1"}}, BoundQuick: 2, BoundThor: 4, ShardsQuick: 1, ShardsThor: 1, CostQuick: 12, CostThor: 16},
+	{Name: "confirms||top,account", Prefix: []string{"ins a1"}, Threads: [][]string{{"cf a1 1"}, {"top a1", "acct"}}, BoundQuick: 2, BoundThor: 4, ShardsQuick: 1, ShardsThor: 2, CostQuick: 17, CostThor: 47},
+	{Name: "batch-task||tryconfirm", Prefix: []string{"ins a1", "ins b1", "ins b2", "cf b2 0,1"}, Threads: [][]string{{"ins b3"}}, LastPrefixBG: true, BoundQuick: 2, BoundThor: 3, ShardsQuick: 4, ShardsThor: 8, CostQuick: 928, CostThor: 5574},
+	{Name: "confirms||confirms", Prefix: []string{"ins a1"}, Threads: [][]string{{"cf a1 1"}, {"cf a1 2"}}, BoundQuick: 2, BoundThor: 4, ShardsQuick: 2, ShardsThor: 2, CostQuick: 32, CostThor: 47},
+	{Name: "insert||confirms-of-it", Prefix: []string{"ins a1"}, Threads: [][]string{{"ins a2"}, {"cf a2 0,2"}}, BoundQuick: 2, BoundThor: 3, ShardsQuick: 3, ShardsThor: 6, CostQuick: 575, CostThor: 3066},
+	{Name: "mine||confirms", Prefix: []string{"pool", "ins a1"}, Threads: [][]string{{"mine"}, {"cf a1 1"}}, BoundQuick: 2, BoundThor: 4, ShardsQuick: 2, ShardsThor: 2, CostQuick: 43, CostThor: 65},
+	{Name: "confirms||top30", Prefix: []string{"ins a1"}, Threads: [][]string{{"cf a1 1"}, {"top30"}}, BoundQuick: 2, BoundThor: 3, ShardsQuick: 2, ShardsThor: 3, CostQuick: 150, CostThor: 659},
+	{Name: "confirms||blockat", Prefix: []string{"ins a1"}, Threads: [][]string{{"cf a1 1"}, {"blockat 1"}}, BoundQuick: 2, BoundThor: 3, ShardsQuick: 2, ShardsThor: 3, CostQuick: 116, CostThor: 386},
+	{Name: "confirms||confirms-same-signer", Prefix: []string{"ins a1", "ins b1"}, Threads: [][]string{{"cf b1 0"}, {"cf b1 f0"}}, BoundQuick: 2, BoundThor: 4, ShardsQuick: 1, ShardsThor: 1, CostQuick: 1, CostThor: 1},
+	{Name: "batch-task||confirms-for-stable-ancestor", Prefix: []string{"ins a1", "ins b1", "ins b2", "cf b2 0,1"}, Threads: [][]string{{"cf b1 0"}}, LastPrefixBG: true, BoundQuick: 2, BoundThor: 4, ShardsQuick: 2, ShardsThor: 2, CostQuick: 35, CostThor: 97},
 	// a confirm package makes a block of ANOTHER fork stable (the current fork is cut, the head switches, the cut fork's
 	// transactions go back to the pool) while a block that carries a transaction extends the current fork
-	{Name: "insert||confirms-of-other-fork", Prefix: []string{"ins a1", "ins b1"}, Threads: [][]string{{"ins a2t"}, {"cf b1 0,2"}}, BoundQuick: 2, BoundThor: 3, ShardsQuick: 3, ShardsThor: 6},
-	{Name: "insert||confirms||getconfirms", Prefix: []string{"ins a1"}, Threads: [][]string{{"ins a2"}, {"cf a1 1"}, {"confirms a1"}}, BoundQuick: 1, BoundThor: 2, ShardsQuick: 3, ShardsThor: 8},
+	{Name: "insert||confirms-of-other-fork", Prefix: []string{"ins a1", "ins b1"}, Threads: [][]string{{"ins a2t"}, {"cf b1 0,2"}}, BoundQuick: 2, BoundThor: 3, ShardsQuick: 3, ShardsThor: 6, CostQuick: 445, CostThor: 2400},
+	{Name: "insert||confirms||getconfirms", Prefix: []string{"ins a1"}, Threads: [][]string{{"ins a2"}, {"cf a1 1"}, {"confirms a1"}}, BoundQuick: 1, BoundThor: 2, ShardsQuick: 3, ShardsThor: 8, CostQuick: 814, CostThor: 7791},
 }
 
 func (sc *scenario) bound() int {
@@ -660,27 +664,49 @@ type unit struct {
 
 func units() []unit {
 	var us []unit
-	// heavy shards first, round-robin over scenarios so that they spread over the workers
-	maxShards := 0
 	for i := range scenarios {
 		if scenarios[i].Thorough && !core.Thorough() {
 			continue
 		}
-		if n := scenarios[i].shards(); n > maxShards {
-			maxShards = n
-		}
-	}
-	for sh := 0; sh < maxShards; sh++ {
-		for i := range scenarios {
-			if scenarios[i].Thorough && !core.Thorough() {
-				continue
-			}
-			if n := scenarios[i].shards(); sh < n {
-				us = append(us, unit{i, sh, n})
-			}
+		for sh, n := 0, scenarios[i].shards(); sh < n; sh++ {
+			us = append(us, unit{i, sh, n})
 		}
 	}
 	return us
+}
+
+// weight estimates the work of one unit (thousand scheduling steps): its share of the scenario's exploration plus
+// what every shard repeats (sequential reference, learning pass of 120 schedules).
+func (u unit) weight() float64 {
+	sc := &scenarios[u.Scenario]
+	c := sc.CostQuick
+	if core.Thorough() {
+		c = sc.CostThor
+	}
+	if c <= 0 {
+		c = 100
+	}
+	return float64(c)/float64(u.NShards) + 30
+}
+
+// assign spreads the units over n workers: heaviest unit first, each to the worker with the least work so far
+// (deterministic: ties go to the lower scenario / shard / worker number). A worker runs its units heaviest first.
+func assign(n int) [][]unit {
+	us := units()
+	sort.SliceStable(us, func(a, b int) bool { return us[a].weight() > us[b].weight() })
+	out := make([][]unit, n)
+	load := make([]float64, n)
+	for _, u := range us {
+		w := 0
+		for i := 1; i < n; i++ {
+			if load[i] < load[w] {
+				w = i
+			}
+		}
+		out[w] = append(out[w], u)
+		load[w] += u.weight()
+	}
+	return out
 }
 
 type workerExtra struct {
@@ -703,11 +729,7 @@ func runWorker(i, n int) {
 	installHook()
 	seeds := seedsFile()
 	only := os.Getenv("VERIF_C19_ONLY")
-	us := units()
-	for ui, u := range us {
-		if ui%n != i {
-			continue
-		}
+	for _, u := range assign(n)[i] {
 		sc := &scenarios[u.Scenario]
 		if only != "" && !strings.Contains(","+only+",", ","+sc.Name+",") {
 			continue
